@@ -2,6 +2,7 @@ package main
 
 import (
 	"fmt"
+	"reflect"
 	"strings"
 
 	"github.com/opsidian/parsley/ast"
@@ -494,6 +495,14 @@ func (x *gen) node(depth int) int {
 			}
 		case "any", "choice":
 			nk = r.Range(2, 3)
+			if r.Chance(1, 25) {
+				// a wide alternative list (size-dependent slice growth: 17, 33, ... elements)
+				wide := r.Range(9, 40)
+				for j := 0; j < wide; j++ {
+					n.Kids = append(n.Kids, x.leaf())
+				}
+				nk = 1
+			}
 		case "sepby", "sepby1":
 			nk = 2
 		case "ltrim", "rtrim":
@@ -762,20 +771,16 @@ func cloneTop(n parsley.Node) (parsley.Node, bool) {
 		return out, true
 	case ast.EmptyNode, parser.EndNode:
 		return x, true
-	case *ast.TerminalNode:
-		return ast.NewTerminalNode(x.Schema(), x.Token(), x.Value(), x.Pos(), x.ReaderPos()), true
-	case *terminal.OpNode:
-		return terminal.NewOpNode(x.Token(), x.Pos(), x.ReaderPos()), true
-	case *ast.NonTerminalNode:
-		var c *ast.NonTerminalNode
-		if len(x.Children()) == 0 {
-			c = ast.NewEmptyNonTerminalNode(x.Token(), x.Pos(), nil)
-		} else {
-			c = ast.NewNonTerminalNode(x.Token(), x.Children(), nil)
+	}
+	// any pointer node: a shallow copy of the struct (children and values are shared,
+	// RightTrim only writes the node's own reader position)
+	rv := reflect.ValueOf(n)
+	if rv.Kind() == reflect.Ptr && !rv.IsNil() && rv.Elem().Kind() == reflect.Struct {
+		c := reflect.New(rv.Elem().Type())
+		c.Elem().Set(rv.Elem())
+		if cn, ok := c.Interface().(parsley.Node); ok {
+			return cn, true
 		}
-		rp := x.ReaderPos()
-		c.SetReaderPos(func(parsley.Pos) parsley.Pos { return rp })
-		return c, true
 	}
 	return nil, false
 }
